@@ -138,7 +138,7 @@ fn history(cfg: &Cfg, rep: &mut Report, h: u64, steps: usize) {
         let pre_state = st[ti];
         let mut delay_used = 0u32;
         if k < 40 {
-            let delay = match rng.below(10) {
+            let delay = match rng.below(20) {
                 0 => 0,
                 1 => min_delay.saturating_sub(1),
                 2 => min_delay,
@@ -186,7 +186,7 @@ fn history(cfg: &Cfg, rep: &mut Report, h: u64, steps: usize) {
             }
         } else {
             name = "set_min_delay";
-            let d = *rng.pick(&[0u32, 1, 3, 10, 50, u32::MAX]);
+            let d = *rng.pick(&[0u32, 1, 3, 10, 50, 0, 2, 5, 1, 7, u32::MAX]);
             want_ok = true;
             got = invoke(e, &c, "set_min_delay", args!(e, d));
             if got.is_ok() {
